@@ -252,16 +252,28 @@ fn ev_name(w: &World, ev: &StreamEvent<String>) -> Option<(String, Option<Proces
     }
 }
 
-/// Import an empty stream and read events until its `ImportEnded`: everything the stream task
-/// handled before is then through.  Returns the named events seen on the way.
+/// Import an empty stream (after the optional `pre` stream was imported and processed) and read
+/// events until its `ImportEnded`: everything the stream task handled before is then through.
+/// The imports are issued from a separate task so that this one keeps draining the
+/// subscription (the application channel holds only 16 events).  Returns the named events seen.
 async fn barrier(
     w: &World,
     live: &mut Live,
     held: &mut HashMap<u64, ProcessedOperation<String>>,
     limit: Option<usize>,
+    pre: Option<Vec<Operation>>,
 ) -> (Vec<String>, Option<u32>, bool) {
-    let fut = live.tx.import(futures_util::stream::iter(Vec::<Operation>::new())).await.expect("barrier import");
-    let sid = fut.session_id();
+    let tx = live.tx.clone();
+    let sid = live.next_import + if pre.is_some() { 1 } else { 0 };
+    live.next_import = sid + 1;
+    let handle = tokio::spawn(async move {
+        if let Some(ops) = pre {
+            let f = tx.import(futures_util::stream::iter(ops)).await.expect("import");
+            let _ = f.await;
+        }
+        let f = tx.import(futures_util::stream::iter(Vec::<Operation>::new())).await.expect("barrier import");
+        let _ = f.await;
+    });
     let mut names = Vec::new();
     let mut total = None;
     let mut replay_events = 0usize;
@@ -291,6 +303,9 @@ async fn barrier(
             }
         }
     }
+    if !cut {
+        let _ = tokio::time::timeout(STEP_TIMEOUT, handle).await.expect("barrier task in time");
+    }
     (names, total, cut)
 }
 
@@ -314,11 +329,10 @@ async fn run_segment(w: &mut World, seg_idx: usize, spec: &str, is_last: bool) -
         .expect("node spawns");
     let (tx, rx) = node.stream::<String>(w.topic).await.expect("stream");
     let mut live = Live { tx, rx, next_import: 0 };
-    let _ = live.next_import;
     let mut held: HashMap<u64, ProcessedOperation<String>> = HashMap::new();
 
     // 1. the replay
-    let (names, total, cut) = barrier(w, &mut live, &mut held, partial).await;
+    let (names, total, cut) = barrier(w, &mut live, &mut held, partial, None).await;
     let replay: Vec<String> = names.iter().filter(|n| n.starts_with("P:") || n.starts_with("D:")).cloned().collect();
     let odd: Vec<String> = names.iter().filter(|n| !(n.starts_with("P:") || n.starts_with("D:"))).cloned().collect();
     let replay_txt = format!("T{} E[{}]{}", total.unwrap_or(0), replay.join(","), if odd.is_empty() { String::new() } else { format!(" ODD[{}]", odd.join(",")) });
@@ -377,7 +391,7 @@ async fn run_segment(w: &mut World, seg_idx: usize, spec: &str, is_last: bool) -
                     break;
                 }
                 tokio::time::timeout(STEP_TIMEOUT, fut).await.expect("processed in time").expect("processed");
-                let (names, _, _) = barrier(w, &mut live, &mut held, None).await;
+                let (names, _, _) = barrier(w, &mut live, &mut held, None, None).await;
                 if policy == AckPolicy::Automatic && names.iter().any(|n| n == &format!("P:{id}")) {
                     out.acked.push(info.clone());
                 }
@@ -392,8 +406,9 @@ async fn run_segment(w: &mut World, seg_idx: usize, spec: &str, is_last: bool) -
                 };
                 let ids: Vec<u64> = list.split(',').filter(|s| !s.is_empty()).map(|s| s.parse().unwrap()).collect();
                 let opsv: Vec<Operation> = ids.iter().map(|i| w.foreign[i].clone()).collect();
-                let fut = live.tx.import(futures_util::stream::iter(opsv)).await.expect("import");
                 if let Some(y) = y {
+                    let fut = live.tx.import(futures_util::stream::iter(opsv)).await.expect("import");
+                    live.next_import += 1;
                     for _ in 0..y {
                         tokio::task::yield_now().await;
                         tokio::time::sleep(Duration::from_micros(200)).await;
@@ -401,8 +416,7 @@ async fn run_segment(w: &mut World, seg_idx: usize, spec: &str, is_last: bool) -
                     drop(fut);
                     break;
                 }
-                let _ = tokio::time::timeout(STEP_TIMEOUT, fut).await.expect("import in time");
-                let (names, _, _) = barrier(w, &mut live, &mut held, None).await;
+                let (names, _, _) = barrier(w, &mut live, &mut held, None, Some(opsv)).await;
                 if policy == AckPolicy::Automatic {
                     for i in &ids {
                         if names.iter().any(|n| n == &format!("P:{i}")) {
@@ -519,7 +533,19 @@ fn world_from_line(line: &str, fspecs: &[(u64, usize, u64, char, bool)]) -> Worl
         foreign: HashMap::new(),
         known: HashMap::new(),
     };
-    build_foreign(&mut w, fspecs);
+    let _ = fspecs;
+    // the operations themselves (their headers carry a creation timestamp) come from the file the
+    // parent wrote next to the database
+    if let Ok(txt) = std::fs::read_to_string(w.dir.join("foreign.txt")) {
+        for line in txt.lines() {
+            let p: Vec<&str> = line.split(' ').collect();
+            let id: u64 = p[0].parse().unwrap();
+            let header: Header = decode_cbor(&unhex(p[1])[..]).expect("header decodes");
+            let body = if p[2] == "-" { None } else { Some(Body::new(&unhex(p[2]))) };
+            let hash = header.hash();
+            w.foreign.insert(id, Operation { hash, header, body });
+        }
+    }
     if f[6] != "-" {
         for kv in f[6].split(',') {
             let (h, v) = kv.split_once('=').unwrap();
@@ -527,6 +553,27 @@ fn world_from_line(line: &str, fspecs: &[(u64, usize, u64, char, bool)]) -> Worl
         }
     }
     w
+}
+
+fn unhex(h: &str) -> Vec<u8> {
+    (0..h.len() / 2).map(|i| u8::from_str_radix(&h[2 * i..2 * i + 2], 16).unwrap()).collect()
+}
+
+fn hex(b: &[u8]) -> String {
+    b.iter().map(|x| format!("{x:02x}")).collect()
+}
+
+fn write_foreign(w: &World) {
+    let mut txt = String::new();
+    for (id, op) in &w.foreign {
+        txt.push_str(&format!(
+            "{} {} {}\n",
+            id,
+            hex(&op.header.to_bytes()),
+            op.body.as_ref().map(|b| hex(b.as_bytes())).unwrap_or("-".to_string())
+        ));
+    }
+    std::fs::write(w.dir.join("foreign.txt"), txt).expect("foreign.txt");
 }
 
 fn parse_fspecs(head: &str) -> (char, usize, usize, Vec<(u64, usize, u64, char, bool)>) {
@@ -668,6 +715,9 @@ fn run_case(payload: &str) -> String {
         known: HashMap::new(),
     };
     build_foreign(&mut w, &fspecs);
+    if crash == 'a' {
+        write_foreign(&w);
+    }
 
     let segs = &parts[1..];
     let mut texts = Vec::new();
